@@ -124,8 +124,8 @@ var rtAssumptions = []string{
 
 func rtMeta(sig string, carve []string) vc.Meta {
 	return vc.Meta{
-		Level: "exploration",
-		Rule: "case = one stream history of " + sig + " batches (phase scripts: random / zero-then-nonzero / nonzero-then-zero / repeat / ramp / singles / sparse-nonzero / empty-mix, or an adversarial near-identical-container template) sent through one Producer/Consumer pair; every batch decoded and compared as a canonical multiset. Non-trivial = >=2 batches, or >=1 schema update observed, or >=2 distinct containers. Distinct = distinct fingerprint (script, #batches, #containers, set of optional columns that appeared, #schema updates).",
+		Level:       "exploration",
+		Rule:        "case = one stream history of " + sig + " batches (phase scripts: random / zero-then-nonzero / nonzero-then-zero / repeat / ramp / singles / sparse-nonzero / empty-mix, or an adversarial near-identical-container template) sent through one Producer/Consumer pair; every batch decoded and compared as a canonical multiset. Non-trivial = >=2 batches, or >=1 schema update observed, or >=2 distinct containers. Distinct = distinct fingerprint (script, #batches, #containers, set of optional columns that appeared, #schema updates).",
 		Assumptions: rtAssumptions,
 		Gates: map[string]map[string]int{
 			"quick":    {"obs.schema_update": 50, "optional_columns_seen_appearing": 20, "batches": 500},
